@@ -24,14 +24,18 @@ RULE = ('per run and DNS class (names, MX, DS, RRSIG, TXT, DNSKEY, private RR ty
         '400) -> valid encoding, all truncations, 6 mutations each, through the model (R/X/M ops) and the real code, with '
         'the C02/C03/C05 statements evaluated on the real code for every input; every DNSKEY RDATA among them also as a KT '
         'op (model key tag, Lean RFC 4034 App. B value, real key_tag, Python reference); RFC-level values (every algorithm, '
-        'RSA with 1- and 3-octet exponent length and odd/even modulus sizes, all 8 flag subsets, Ed448 with 57 octets, EC '
-        'coordinates with leading zero octets, private RR types, timestamps 0 / 2^31 / 2^32-1 (an instant), root and 255-octet names, '
-        'multi-string and >255-octet TXT) encoded by the reference encoder and checked for acceptance, exact recovery, '
-        'byte-for-byte re-composition and key tag. Non-trivial: the input is not all zero; distinct: (class, bytes).')
+        'RSA with 1- and 3-octet exponent length and odd/even modulus sizes, moduli at powers of 256, all 8 flag subsets, Ed448 '
+        'with 57 octets, EC coordinates with leading zero octets, private RR types, timestamps 0 / 2^31 / 2^32-1 (an instant), root '
+        'and 255-octet names, RRSIG RDATA of 19..23 octets, multi-string and >255-octet TXT) encoded by the reference encoder and '
+        'checked for acceptance, exact recovery, byte-for-byte re-composition and key tag; a fixed list of edge inputs and 60 '
+        '(quick) / 600 generated non-canonical inputs per class (gen_dns.RAW_INPUTS: algorithms without a key type, zero / '
+        'power-of-256 integers, octets after a fixed-size key, labels over 63 octets or holding a dot, names over 255 octets) '
+        'that must be refused with one of the four documented errors or re-composed. Non-trivial: the input is not all zero; '
+        'distinct: (class, bytes).')
 ASSUMPTIONS = [
     'CPython idna/ascii codecs on their ASCII paths; IDNA conversion of non-ASCII labels is library behaviour (UNMODELLED)',
-    'asn1crypto key objects: the key size is ceil(math.log(v, 2)); the model uses the exact value and declares integers '
-    'within 2^-32 of a power of 256 (>= 2^32) outside its boundary',
+    'asn1crypto EC points are sized by ceil(math.log(v, 2) / 8); the model uses the exact value and declares coordinates '
+    'within 2^-32 of a power of 256 (>= 2^32) outside its boundary (RSA moduli and DSA primes are sized by bit_length())',
     'datetime <-> epoch conversion is CPython (calendar.timegm / datetime.fromtimestamp)',
 ]
 TRUSTED_EXTRA = ['harness/props/c08.py reference RDATA encoder/decoder and key tag (written from the RFC text)']
@@ -236,7 +240,8 @@ def consts_tie(run):
     from cryptodatahub.common.algorithm import Authentication, NamedGroup
     want = {
         'header sizes': ((rec.DnsRecordDnskey.HEADER_SIZE, rec.DnsRecordDs.HEADER_SIZE, rec.DnsRecordRrsig.HEADER_SIZE,
-                          rec.DnsRecordMx.HEADER_SIZE, rec.DnsRecordTxt.HEADER_SIZE), (4, 4, 24, 2, 1)),
+                          rec.DnsRecordMx.HEADER_SIZE, rec.DnsRecordTxt.HEADER_SIZE), (4, 4, 18, 2, 1)),
+        'name size limit': (getattr(rec.DnsNameUncompressed, 'MAX_SIZE', None), 255),
         'DnsSecProtocol': (sorted(m.value for m in rec.DnsSecProtocol), [3]),
         'private type range': ((rec.DnsRrTypePrivate._get_value_min(), rec.DnsRrTypePrivate._get_value_max(),  # pylint: disable=protected-access
                                 rec.DnsRrTypePrivate._get_value_length()), (0xff00, 0xfffe, 2)),  # pylint: disable=protected-access
@@ -582,9 +587,16 @@ def spec_cases(rng, tier):
         parts = [gen_dns.txt_text(rng, 255).encode('ascii'), gen_dns.txt_text(rng, rng.choice([1, 100, 255])).encode('ascii')]
         add('DnsRecordTxt', 'txt-long', b''.join(bytes([len(p)]) + p for p in parts))     # 255 + k: the composed form
         add('DnsRrTypePrivate', 'private-type', be(rng.choice([0xff00, 0xfffe, rng.randrange(0xff00, 0xffff)]), 2))
-    # a valid RRSIG shorter than the class's HEADER_SIZE
-    add('DnsRecordRrsig', 'rrsig-short', be(1, 2) + be(8, 1) + be(0, 1) + be(3600, 4) + be(1600000000, 4) + be(1500000000, 4) +
-        be(7, 2) + b'\x00' + gen_dns.rbytes(rng, rng.randrange(0, 5)))
+    # valid RRSIGs of 19 to 23 octets (the fixed part has 18)
+    for sig in range(5):
+        add('DnsRecordRrsig', 'rrsig-short', be(1, 2) + be(8, 1) + be(0, 1) + be(3600, 4) + be(1600000000, 4) + be(1500000000, 4) +
+            be(7, 2) + b'\x00' + gen_dns.rbytes(rng, sig))
+    add('DnsRecordRrsig', 'rrsig-short', be(1, 2) + be(8, 1) + be(1, 1) + be(3600, 4) + be(1600000000, 4) + be(1500000000, 4) +
+        be(7, 2) + b'\x01a\x00' + gen_dns.rbytes(rng, rng.randrange(0, 3)))
+    # RSA moduli at a power of 256 and next to one (sized by bit_length(), not by a float logarithm)
+    for k in (1, 64, 128):
+        for n in (256 ** k, 256 ** k + 1, 256 ** k - 1):
+            add('DnsRecordDnskey', 'rsa-pow256', b'\x01\x00\x03\x08' + ref_enc_rsa(65537, n))
     return cases
 
 
@@ -608,10 +620,19 @@ def nonconformant_cases(rng):
     out = []
     head = b'\x01\x01\x03'
     for alg, size in ((13, 64), (14, 96), (12, 64), (15, 32), (16, 57)):
-        out.append(('trailing-key-bytes', 'DnsRecordDnskey', head + be(alg, 1) + gen_dns.rbytes(rng, size) + b'\xaa\xbb'))
+        out.append(('trailing-key-bytes', 'DnsRecordDnskey', head + be(alg, 1) + gen_dns.safe_int(rng, size).to_bytes(size, 'big') +
+                    b'\xaa\xbb'))
+    size = 64 + 8 * rng.choice([0, 1])
+    out.append(('trailing-key-bytes', 'DnsRecordDnskey', head + be(3, 1) + be((size - 64) // 8, 1) + gen_dns.rbytes(rng, 20) +
+                be(gen_dns.safe_int(rng, size), size) + gen_dns.rbytes(rng, 2 * size) + b'\xaa'))
     out.append(('label-over-63', 'DnsNameUncompressed', bytes([64]) + b'a' * 64 + b'\x00'))
     out.append(('label-over-63', 'DnsNameUncompressed', bytes([0xc0]) + b'a' * 0xc0 + b'\x00'))
+    out.append(('label-over-63', 'DnsNameUncompressed', bytes([127]) + b'a' * 63 + b'.' + b'b' * 63 + b'\x00'))
+    out.append(('label-over-63', 'DnsRecordMx', be(10, 2) + bytes([64]) + b'a' * 64 + b'\x00'))
     out.append(('name-over-255', 'DnsNameUncompressed', (bytes([63]) + b'a' * 63) * 5 + b'\x00'))
+    out.append(('name-over-255', 'DnsNameUncompressed', (bytes([63]) + b'a' * 63) * 3 + bytes([62]) + b'a' * 62 + b'\x00'))
+    out.append(('name-over-255', 'DnsRecordRrsig', be(1, 2) + be(8, 1) + be(2, 1) + be(3600, 4) + be(1600000000, 4) +
+                be(1500000000, 4) + be(7, 2) + b'\x01a' * 128 + b'\x00' + gen_dns.rbytes(rng, 64)))
     return out
 
 
@@ -628,7 +649,7 @@ def check_nonconformant(tag, name, data):
         again = bytes(obj.compose())
     except Exception as exc:  # pylint: disable=broad-except
         again = None
-    if again != bytes(data) or tag == 'name-over-255':
+    if again != bytes(data) or tag in ('name-over-255', 'label-over-63'):
         return [(tag, '{} accepts the non-conformant RDATA {} (consumed {}), and what it keeps composes {}'.format(
             name, hx(data), n, again and hx(again)))]
     return []
@@ -660,6 +681,30 @@ def edge_cases():
         ('DnsRecordDnskey', head + b'\x03' + b'\x00' + bytes(range(1, 21)) + b'\x00' + bytes(range(1, 64)) +
          bytes(range(2, 66)) + bytes(range(3, 67))),                            # DSA prime with a leading zero octet
         ('DnsRecordDnskey', b'\xfe\x7e\x03\x0f' + bytes(range(1, 33))),        # reserved flag bits
+        ('DnsRecordDnskey', rsa + b'\x03\x01\x00\x01' + bytes(8)),               # modulus 0 in eight octets
+        ('DnsRecordDnskey', rsa + b'\x01\x00' + bytes(range(1, 65))),             # exponent 0
+        ('DnsRecordDnskey', rsa + b'\x03\x01\x00\x01' + b'\x01' + bytes(127) + b'\x01'),   # modulus 2^1024 + 1
+        ('DnsRecordDnskey', rsa + b'\x03\x01\x00\x01' + b'\xff' * 128),         # modulus 2^1024 - 1
+        ('DnsRecordDnskey', ec + bytes(range(1, 33)) + bytes(range(2, 34)) + b'\xaa'),   # an octet after an ECDSA key
+        ('DnsRecordDnskey', head + b'\x0f' + bytes(range(1, 33)) + b'\xaa\xbb'),  # two octets after an Ed25519 key
+        ('DnsRecordDnskey', head + b'\x10' + bytes(range(1, 58))),                # an Ed448 key of 57 octets (RFC 8080)
+        ('DnsRecordDnskey', head + b'\x03' + b'\x00' + bytes(range(1, 21)) + bytes(range(1, 65)) + bytes(range(2, 66)) +
+         bytes(range(3, 67)) + b'\xaa'),                                        # an octet after a DSA key
+        ('DnsRecordDnskey', head + b'\x03' + b'\x00' + bytes(range(1, 21)) + b'\x01' + bytes(63) + bytes(range(2, 66)) +
+         bytes(range(3, 67))),                                                  # DSA prime 256^63
+        ('DnsRecordDnskey', head + b'\x03' + b'\x00' + bytes(range(1, 21)) + bytes(64) + bytes(range(2, 66)) +
+         bytes(range(3, 67))),                                                  # DSA prime 0
+        ('DnsRecordDnskey', head + b'\x03' + b'\x00' + bytes(range(1, 21)) + b'\x00' + bytes(range(1, 64)) + bytes(range(2, 40))),
+        ('DnsNameUncompressed', bytes([63]) + b'a' * 63 + b'\x00'),
+        ('DnsNameUncompressed', bytes([3]) + b'a.b' + b'\x00'),
+        ('DnsNameUncompressed', bytes([127]) + b'a' * 63 + b'.' + b'b' * 63 + b'\x00'),
+        ('DnsNameUncompressed', (bytes([63]) + b'a' * 63) * 3 + bytes([61]) + b'a' * 61 + b'\x00'),   # 255 octets
+        ('DnsNameUncompressed', (bytes([63]) + b'a' * 63) * 3 + bytes([62]) + b'a' * 62 + b'\x00'),   # 256 octets
+        ('DnsNameUncompressed', (bytes([63]) + b'a' * 63) * 4),                  # beyond 255 octets and truncated
+        ('DnsRecordRrsig', rrsig_head + be(1600000000, 4) + be(1500000000, 4) + be(7, 2)),                # 18 octets: no name
+        ('DnsRecordRrsig', rrsig_head + be(1600000000, 4) + be(1500000000, 4) + be(7, 2) + b'\x00'),      # 19 octets
+        ('DnsRecordRrsig', rrsig_head + be(1600000000, 4) + be(1500000000, 4) + be(7, 2) + b'\x00\x01\x02\x03\x04'),
+        ('DnsRecordRrsig', rrsig_head + be(1600000000, 4) + be(1500000000, 4) + be(7, 2) + b'\x01a' * 128 + b'\x00' + bytes(range(40))),
         ('DnsNameUncompressed', long_label),
         ('DnsNameUncompressed', dotted),
         ('DnsRecordMx', be(10, 2) + long_label),
@@ -670,6 +715,22 @@ def edge_cases():
         ('DnsRecordTxt', bytes([255]) + b'a' * 255 + bytes([1]) + b'b'),
         ('DnsRecordTxt', bytes([1, 0x80])),
     ]
+
+
+def raw_cases(run, per_class, seen):
+    """non-canonical wire inputs of gen_dns.RAW_INPUTS"""
+    cases, kt = [], []
+    for name, gen in gen_dns.RAW_INPUTS:
+        for _ in range(per_class):
+            data = bytes(gen(run.rng))
+            if (name, data) in seen:
+                continue
+            seen.add((name, data))
+            want_props = ['C02', 'C03'] if name == 'DnsRecordDnskey' else ['C02', 'C03', 'C05']
+            cases.append({'kind': 'cls', 'cls': name, 'data': hx(data), 'want': want_props, 'framing': False})
+            if name == 'DnsRecordDnskey' and len(data) >= 4:
+                kt.append({'kind': 'kt', 'data': hx(data), 'tag': 'raw'})
+    return cases, kt
 
 
 def class_cases(run, per_class, mutations, late):
@@ -711,7 +772,8 @@ def class_cases(run, per_class, mutations, late):
         cases.append({'kind': 'cls', 'cls': name, 'data': hx(data), 'want': want_props, 'framing': False})
         if name == 'DnsRecordDnskey':
             kt.append({'kind': 'kt', 'data': hx(data), 'tag': 'edge'})
-    return cases, kt, objs
+    more, more_kt = raw_cases(run, 60 if per_class <= 40 else 600, seen)
+    return cases + more, kt + more_kt, objs
 
 
 def run(run, driver_ok=True, deep=False):  # pylint: disable=redefined-outer-name
